@@ -26,8 +26,14 @@
 (***************************************************************************)
 EXTENDS Deps
 
-NumToks == {"n:0", "n:1", "n:2", "n:3"}
-NumOf(t) == CASE t = "n:0" -> 0 [] t = "n:1" -> 1 [] t = "n:2" -> 2 [] t = "n:3" -> 3 [] OTHER -> 0
+\* besides the small numbers: 2^53 and 2^53 + 1, two integers that differ only in the digit a float64
+\* cannot hold (--set gives an int64, a values file a json.Number: the gate must compare them exactly).
+\* TLC's integers are 32 bit: NumOf is the RANK of the token in the numeric order, which is all
+\* minimum / maximum need.
+Big   == "n:9007199254740992"
+Big1  == "n:9007199254740993"
+NumToks == {"n:0", "n:1", "n:2", "n:3", Big, Big1}
+NumOf(t) == CASE t = "n:0" -> 0 [] t = "n:1" -> 1 [] t = "n:2" -> 2 [] t = "n:3" -> 3 [] t = Big -> 4 [] t = Big1 -> 5 [] OTHER -> 0
 
 \* JSON type of ValAt's result
 KindOf(x) == IF x \in {"true", "false"} THEN "boolean"
